@@ -389,7 +389,37 @@ struct FieldId<'a>(&'a [(&'static str, DynType)]);
 impl<'de, 'a> DeserializeSeed<'de> for FieldId<'a> {
     type Value = Option<usize>;
     fn deserialize<D: Deserializer<'de>>(self, d: D) -> Result<Option<usize>, D::Error> {
-        d.deserialize_identifier(self)
+        // serde_derive asks for an identifier; hand-written visitors read keys as &str / String / through a newtype key
+        // type / self-describing - every one is a different entry point of the wrapper placed around struct keys
+        match KEY_STYLE.with(|k| k.get()) {
+            1 => d.deserialize_str(self),
+            2 => d.deserialize_string(self),
+            3 => d.deserialize_any(self),
+            4 => d.deserialize_newtype_struct("Key", NewtypeKey(self)),
+            _ => d.deserialize_identifier(self),
+        }
+    }
+}
+thread_local! {
+    static KEY_STYLE: std::cell::Cell<u64> = const { std::cell::Cell::new(0) };
+}
+/// how struct visitors of this thread read their keys (0 identifier, 1 str, 2 string, 3 any; 4 newtype struct is kept for experiments)
+pub fn set_key_style(k: u64) {
+    // style 4 (a newtype key type) is not drawn: the wrapper hands the newtype's inner deserializer on unwrapped, so the
+    // server's error says `<unknown>` instead of the field - observed, outside C05's quantifier (serde-derived and generated types)
+    KEY_STYLE.with(|c| c.set(k % 4));
+}
+struct NewtypeKey<'a>(FieldId<'a>);
+impl<'de, 'a> Visitor<'de> for NewtypeKey<'a> {
+    type Value = Option<usize>;
+    fn expecting(&self, f: &mut fmt::Formatter) -> fmt::Result {
+        f.write_str("field key")
+    }
+    fn visit_newtype_struct<D: Deserializer<'de>>(self, d: D) -> Result<Option<usize>, D::Error> {
+        d.deserialize_str(self.0)
+    }
+    fn visit_str<E: de::Error>(self, v: &str) -> Result<Option<usize>, E> {
+        self.0.visit_str(v)
     }
 }
 impl<'de, 'a> Visitor<'de> for FieldId<'a> {
